@@ -16,6 +16,14 @@ CLAIMED = {
                 note="Thread timing is modelled by an as_completed stub yielding a solver-chosen permutation; superposition modelled as exact real addition. Replays use real threads.",
                 ref="DESIGN.md §4 C17"),
 }
+CLAIMED["C03"] = dict(engine="E1", technique="symbolic execution of the real encoder; z3 pseudo-Boolean queries over all 2^k messages (exists light codeword? shifted codeword outside the code? non-multiple of g?)",
+    text="Per code object: true minimum distance >= advertised (unsat of 'exists m != 0 with wt(enc(m)) < d'), attained where documented exact (sat witness replayed), cyclic closure and divisibility by g(X) for contiguous layouts, capability = floor((delta-1)/2), sphere-packing equality for the perfect codes from the solver-established d. Catalogue-bounded (n <= 31; n = 63/64 stretch).",
+    note="Advertised values are read from the object's API (minimum_distance()/attribute) or the class documentation where no attribute exists. Closure oracle = solver-validated dual basis of the published G. X^j mod g computed by the real BinaryPolynomial (cross-checked against an independent bitmask routine).",
+    ref="DESIGN.md §4 C03")
+CLAIMED["C04"] = dict(engine="E1", technique="symbolic execution of encode followed by inverse_encode / extract_message / project_word on symbolic message tensors of each layout; z3 decides 'exists M: result != M'",
+    text="For every catalogue code and each layout (1-D, (2,k), (2,2,k), (2,b*k), (3k,)) one query covers all messages of that layout: round-trip identity, zero syndrome, output shapes scaled by n/k and k/n; rejection of non-multiples is a ground check per shape.",
+    note="Shapes are concrete (bounded technique); Reed-Muller nearest-codeword inverse bounded to k <= 5/7; <= 400 coded bits per run.",
+    ref="DESIGN.md §4 C04")
 NOT_YET = {}
 
 PENDING_REASON = "check not built yet in this round (planned: see DESIGN.md §8); not claimed until its check exists"
